@@ -141,6 +141,9 @@ def gen_world(r, anp=False, big=False, pods=True, multi_kind=True):
             p['egress'] = [nprule('egress') for _ in range(r.randint(0, 2))]
         W['netpols'].append(p)
 
+    if r.random() < 0.25 and W['workloads']:
+        cover_bias(r, W)
+
     if anp:
         def asubj():
             if r.random() < 0.5:
@@ -185,6 +188,51 @@ def gen_world(r, anp=False, big=False, pods=True, multi_kind=True):
                 b['egress'] = [arule('egress', k, True) for k in range(r.randint(1, 3))]
             W['banp'] = b
     return W
+
+
+def cover_bias(r, W):
+    """policies whose rules only TOGETHER cover every protocol and port: the per-protocol port space is cut at
+    boundary points and the pieces are dealt to several rules / policies selecting the same pods"""
+    ns = r.choice(W['workloads'])['ns']
+    d = r.choice(['ingress', 'egress'])
+    holders = r.randint(2, 3)
+    pieces = [[] for _ in range(holders)]
+    for proto in PROTOS:
+        cuts = sorted(r.sample([q for q in PORTS if q < 65535], r.randint(0, 2)))
+        lo = 1
+        segs = []
+        for c in cuts:
+            segs.append((lo, c))
+            lo = c + 1
+        segs.append((lo, 65535))
+        if r.random() < 0.15:
+            segs.pop(r.randrange(len(segs)))       # sometimes leave a hole: not the full set
+        for a, b in segs:
+            tgt = r.sample(range(holders), r.randint(1, holders)) if r.random() < 0.5 else [r.randrange(holders)]
+            for t in tgt:
+                if (a, b) == (1, 65535) and r.random() < 0.6:
+                    pieces[t].append({'protocol': proto})
+                elif a == b:
+                    pieces[t].append({'protocol': proto, 'port': a})
+                else:
+                    pieces[t].append({'protocol': proto, 'port': a, 'endPort': b})
+    same_policy = r.random() < 0.4
+    key = 'from' if d == 'ingress' else 'to'
+    rules = []
+    for ps in pieces:
+        if not ps:
+            continue
+        r.shuffle(ps)
+        rule = {'ports': ps}
+        if r.random() < 0.3:
+            rule[key] = [{'namespaceSelector': {}}]
+        rules.append(rule)
+    sel = {} if r.random() < 0.7 else rsel(r, allow_none=False)
+    if same_policy:
+        W['netpols'].append({'ns': ns, 'name': 'cov0', 'podSelector': sel, 'policyTypes': ['Ingress' if d == 'ingress' else 'Egress'], d: rules})
+    else:
+        for i, rule in enumerate(rules):
+            W['netpols'].append({'ns': ns, 'name': 'cov%d' % i, 'podSelector': sel, 'policyTypes': ['Ingress' if d == 'ingress' else 'Egress'], d: [rule]})
 
 
 # ---------------------------------------------------------------- manifests
@@ -437,8 +485,11 @@ def c_rpeer(s, is_ip=None):
     if is_ip is None:
         is_ip = (not '/' in s) and s[:1].isdigit() and '-' in s
     if is_ip:
-        lo, hi = parse_ip_range(s)
-        return '(RIP %s %s)' % (cz(lo), cz(hi))
+        try:
+            lo, hi = parse_ip_range(s)
+            return '(RIP %s %s)' % (cz(lo), cz(hi))
+        except Exception:
+            return '(RW %s)' % cstr('<not a single IP range> ' + s)   # fails the C05 checker and the peer comparison
     return '(RW %s)' % cstr(s)
 
 
